@@ -444,3 +444,7 @@ def m4_delegation(F, R):
         R.count('delegations', 1)
         R.check(ok, 'M4', 'delegate:%s' % it['name'], fn_site(F, b['id']), 'forwards to %d variants with identical arguments' % nvar,
                 'SomeTransport::%s does not forward faithfully: %d forwarding calls for %d variants; %s' % (it['name'], len(calls), nvar, det))
+
+
+def thorough_extra(R, here):
+    run_witnesses(R, here, {'C10M1PrivateRegisters': 'access to a VirtIOHeader register field from outside the transport module'}, 'M1')
